@@ -335,3 +335,14 @@ for _c in ("C23", "C01"):
     CLAIMS[_c]["text"] += " Try.branch is instantiated from the tried expression's type and Try.from_residual from the enclosing function's return type (TRY-SUBST)."
 CLAIMS["C24"]["text"] += " Float equality and ordering use the one total order in the register and the immediate form alike (FLOAT-ORDER, IMM-SIBLING)."
 CLAIMS["C26"]["text"] += " The must-use analysis of position parameters accounts for early returns (INDEX-MUST-USE)."
+
+# ---- sixth seeding round
+CLAIMS["C28"]["text"] += " A type that reaches an implementation lookup in the generator was read through get_ty(mono, ..) or substituted (MONO-TYPE)."
+for _c in ("C03", "C01"):
+    CLAIMS[_c]["text"] += " Implementation lookups in the generator use the instance's types (MONO-TYPE)."
+CLAIMS["C29"]["text"] += " The search for the end of a block comment starts behind the two characters of the opener (SCAN-TERM)."
+for _c in ("C34", "C17", "C04"):
+    CLAIMS[_c]["text"] += " No single byte of UTF-8 text is cast to a char (BYTE-AS-CHAR)."
+CLAIMS["C36"]["text"] += " Every tag arm of a from_vm that takes a variant apart also takes its payload, placeholder included (MIRROR)."
+CLAIMS["C37"]["text"] += " Apart from the capacity test, no method branches on the occupancy of a storage buffer (OWN-IDSET)."
+CLAIMS["C38"]["text"] += " In the buffer-switch branch the padding is recomputed after the position reset (ARENA-ALIGN)."
